@@ -351,42 +351,6 @@ theorem labelsOf_getD {Sym : Type} [Inhabited Sym] (lab : Nat → Sym) {n i : Na
     (labelsOf lab n).getD i default = lab i := by
   simp [labelsOf, List.getD_eq_getElem?_getD, hi]
 
-/-- `to_generic_decoder_model` / `from_iterable_entropy_model` on the specification's table
-    yields the canonical decoder model: same bins, same labels -/
-theorem NcDec.fromTable_specTable {Sym : Type} {B P : Nat} (lab : Nat → Sym) {ext : List Nat}
-    (h : ValidExt P ext) :
-    ∃ last, NcDec.fromTable B P (specTable lab ext) =
-      .ok { cdf := ncCdf B P (labelsOf lab (ext.length - 1)) ext last } := by
-  unfold NcDec.fromTable
-  have h3 := h.1
-  have hmap : (specTable lab ext).map (fun (x : Sym × Nat × Nat) => (x.2.1, x.1)) =
-      ext.dropLast.zip (labelsOf lab (ext.length - 1)) := by
-    apply List.ext_getElem?
-    intro i
-    by_cases hi : i < ext.length - 1
-    · have h1 : ext.dropLast[i]? = some (ext.getD i 0) := by
-        rw [List.getElem?_dropLast, if_pos hi, getElem?_of_lt (d := 0) (by omega)]
-      have h2 : (labelsOf lab (ext.length - 1))[i]? = some (lab i) := by
-        simp [labelsOf, hi]
-      rw [List.getElem?_zip_eq_some (z := (ext.getD i 0, lab i)) |>.mpr ⟨h1, h2⟩]
-      simp [specTable, hi]
-    · rw [List.getElem?_eq_none (by simp [specTable]; omega),
-        List.getElem?_eq_none (by simp [labelsOf]; omega)]
-  have hmap' : (specTable lab ext).map (fun x => match x with | (s, left, _) => (left, s)) =
-      ext.dropLast.zip (labelsOf lab (ext.length - 1)) := hmap
-  rw [hmap']
-  cases hl : (ext.dropLast.zip (labelsOf lab (ext.length - 1))).getLast? with
-  | none =>
-    exfalso
-    have := List.getLast?_eq_none_iff.mp hl
-    have : (ext.dropLast.zip (labelsOf lab (ext.length - 1))).length = 0 := by rw [this]; rfl
-    simp [labelsOf] at this
-    omega
-  | some x =>
-    obtain ⟨c, last⟩ := x
-    exact ⟨last, by simp only [ncCdf, hl]⟩
-
-
 theorem psums_step (acc : Nat) (qs : List Nat) (i : Nat) (hi : i < qs.length) :
     (psums acc qs ++ [acc + qs.sum]).getD (i + 1) 0 =
       (psums acc qs ++ [acc + qs.sum]).getD i 0 + qs.getD i 0 := by
@@ -632,5 +596,123 @@ theorem NcEnc.enc_of_specTable {Sym : Type} [DecidableEq Sym] [Inhabited Sym] {m
   rw [h, NcEnc.get_specTable]
   have : ext.length - 1 = syms.length := by omega
   rw [this, labelsOf_getD_self]
+
+
+/-! ### `from_iterable_entropy_model` of the decoder model (with the D32 validation) -/
+
+theorem dropLast_getElem_eq' {ext : List Nat} {j : Nat} (hj : j < ext.dropLast.length) :
+    ext.dropLast[j] = ext.getD j 0 := by
+  have hj' : j < ext.length := by simp at hj; omega
+  rw [List.getElem_dropLast, getD_of_lt hj']
+
+/-- rows `i, i+1, …` of the canonical non-contiguous cdf -/
+def cdfRows {Sym : Type} (lab : Nat → Sym) (ext : List Nat) (i m : Nat) : List (Nat × Sym) :=
+  (List.range' i m).map (fun j => (ext.getD j 0, lab j))
+
+theorem cdfRows_succ {Sym : Type} (lab : Nat → Sym) (ext : List Nat) (i m : Nat) :
+    cdfRows lab ext i (m + 1) = (ext.getD i 0, lab i) :: cdfRows lab ext (i + 1) m := by
+  simp [cdfRows, List.range'_succ]
+
+theorem cdfRows_all {Sym : Type} (lab : Nat → Sym) (ext : List Nat) :
+    cdfRows lab ext 0 (ext.length - 1) = ext.dropLast.zip (labelsOf lab (ext.length - 1)) := by
+  apply List.ext_getElem?
+  intro i
+  by_cases hi : i < ext.length - 1
+  · have h1 : ext.dropLast[i]? = some (ext.getD i 0) := by
+      rw [List.getElem?_dropLast, if_pos hi, getElem?_of_lt (d := 0) (by omega)]
+    have h2 : (labelsOf lab (ext.length - 1))[i]? = some (lab i) := by
+      simp [labelsOf, hi]
+    rw [List.getElem?_zip_eq_some (z := (ext.getD i 0, lab i)) |>.mpr ⟨h1, h2⟩]
+    simp [cdfRows, hi]
+  · rw [List.getElem?_eq_none (by simp [cdfRows]; omega),
+      List.getElem?_eq_none (by simp [labelsOf]; omega)]
+
+theorem specTable_drop {Sym : Type} (lab : Nat → Sym) (ext : List Nat) {i : Nat}
+    (hi : i < ext.length - 1) :
+    (specTable lab ext).drop i =
+      (lab i, ext.getD i 0, ext.getD (i + 1) 0 - ext.getD i 0) :: (specTable lab ext).drop (i + 1) := by
+  have hlt : i < (specTable lab ext).length := by rw [specTable_length]; exact hi
+  rw [List.drop_eq_getElem_cons hlt]
+  congr 1
+  have := specTable_getElem? lab ext hi
+  rw [List.getElem?_eq_getElem hlt] at this
+  exact Option.some.inj this
+
+
+/-- the validating loop accepts the specification's table -/
+theorem fromTableCheck_specTable {Sym : Type} {B P : Nat} {ext : List Nat} (h : ValidExt P ext)
+    (hP1 : 1 ≤ P) (hP : P ≤ B) (lab : Nat → Sym) :
+    ∀ (m i : Nat) (cdf : List (Nat × Sym)), i + m + 2 = ext.length →
+      NcDec.fromTableCheck B (wsub B (wrappingPow2 B P) 1) ((specTable lab ext).drop i)
+          (ext.getD i 0) false cdf = .ok (true, cdf ++ cdfRows lab ext i (m + 1)) := by
+  have hPB := pow_le_pow_of_le hP
+  have h2P := two_pow_pos' P
+  intro m
+  induction m with
+  | zero =>
+    intro i cdf hi
+    rw [specTable_drop lab ext (by omega)]
+    have hnil : (specTable lab ext).drop (i + 1) = [] := by
+      apply List.drop_eq_nil_of_le; rw [specTable_length]; omega
+    obtain ⟨b1, b2, _⟩ := h.bin (s := i) (by omega)
+    have hlast : ext.getD (i + 1) 0 = 2 ^ P := by
+      have : i + 1 = ext.length - 1 := by omega
+      rw [this]; exact h.2.2.1
+    rw [hnil]
+    simp only [NcDec.fromTableCheck, wsub_total_one hP1 hP]
+    rw [if_neg (by simp)]
+    unfold csub
+    rw [if_pos (by omega)]
+    simp only
+    rw [wsub_of_le (by omega) (by omega), if_neg (by omega)]
+    have : (ext.getD (i + 1) 0 - ext.getD i 0 - 1 == 2 ^ P - 1 - ext.getD i 0) = true := by
+      rw [beq_iff_eq]; omega
+    rw [this, cdfRows_succ]
+    simp [cdfRows]
+  | succ m ih =>
+    intro i cdf hi
+    rw [specTable_drop lab ext (by omega)]
+    obtain ⟨b1, b2, _⟩ := h.bin (s := i) (by omega)
+    have hin := h.inner_lt (i := i + 1) (by omega)
+    simp only [NcDec.fromTableCheck, wsub_total_one hP1 hP]
+    rw [if_neg (by simp)]
+    unfold csub
+    rw [if_pos (by omega)]
+    simp only
+    rw [wsub_of_le (by omega) (by omega), if_neg (by omega)]
+    have hc : (ext.getD (i + 1) 0 - ext.getD i 0 - 1 == 2 ^ P - 1 - ext.getD i 0) = false := by
+      rw [beq_eq_false_iff_ne]; omega
+    have hw : wadd B (ext.getD i 0) (ext.getD (i + 1) 0 - ext.getD i 0) = ext.getD (i + 1) 0 := by
+      unfold wadd
+      rw [Nat.mod_eq_of_lt (by omega)]; omega
+    have ih' := ih (i + 1) (cdf ++ [(ext.getD i 0, lab i)]) (by omega)
+    rw [wsub_total_one hP1 hP] at ih'
+    rw [hc, hw, ih', cdfRows_succ lab ext i (m + 1)]
+    simp
+
+/-- `to_generic_decoder_model` / `from_iterable_entropy_model` on the specification's table
+    passes the validation and yields the canonical decoder model: same bins, same labels -/
+theorem NcDec.fromTable_specTable {Sym : Type} {B P : Nat} (lab : Nat → Sym) {ext : List Nat}
+    (h : ValidExt P ext) (hP1 : 1 ≤ P) (hP : P ≤ B) :
+    ∃ last, NcDec.fromTable B P (specTable lab ext) =
+      .ok { cdf := ncCdf B P (labelsOf lab (ext.length - 1)) ext last } := by
+  have h3 := h.1
+  unfold NcDec.fromTable
+  have hc := fromTableCheck_specTable h hP1 hP lab (ext.length - 2) 0 [] (by omega)
+  rw [List.drop_zero, h.2.1] at hc
+  rw [hc]
+  simp only [List.nil_append]
+  have e : ext.length - 2 + 1 = ext.length - 1 := by omega
+  rw [e, cdfRows_all]
+  cases hl : (ext.dropLast.zip (labelsOf lab (ext.length - 1))).getLast? with
+  | none =>
+    exfalso
+    have := List.getLast?_eq_none_iff.mp hl
+    have : (ext.dropLast.zip (labelsOf lab (ext.length - 1))).length = 0 := by rw [this]; rfl
+    simp [labelsOf] at this
+    omega
+  | some x =>
+    obtain ⟨c, last⟩ := x
+    exact ⟨last, by simp [ncCdf]⟩
 
 end CV.Cat
